@@ -16,8 +16,9 @@ from ..world import inject, survey
 from ..world.clock import SimClock, Seams, install_clock
 from .config import TOUCHED
 
+# BLAS thread counts are read when the libraries are loaded (the worker starts with them = 1);
+# they are NOT part of the per-invocation baseline, so that the world can draw them as knobs.
 _BASE_KEEP = ('PATH', 'HOME', 'MPLCONFIGDIR', 'TZ', 'LANG', 'LC_ALL', 'TMPDIR',
-              'OMP_NUM_THREADS', 'OPENBLAS_NUM_THREADS', 'MKL_NUM_THREADS',
               'PYTHONHASHSEED', 'PYTHONPATH', 'VIRTUAL_ENV', 'XDG_CACHE_HOME', 'XDG_CONFIG_HOME')
 _PROCESS_BASE = None
 
